@@ -7,6 +7,7 @@ import vlib
 
 MODULE = "Backtest"
 META = {
+    "spec": ["Backtest", "Clock", "SystemLifecycle"],
     "technique": "TLC exhaustive interleavings of K=2 backtests (forwarder / exchange / engine / shutdown tasks) "
                  "with the state space checked to be the product of the single-run spaces; every small strategy "
                  "parameterisation enumerated by TLC and executed concurrently through the real run_backtests; "
@@ -500,6 +501,17 @@ def check(ctx):
     ctx.build("c20")
     model_check(ctx)
     binding_bites(ctx)
+    # the engine clock every time an engine reports comes from (spec/Clock.tla; signatures "clock:...")
+    from props import clock
+    clock.run(ctx)
+    # --- g3: the System lifecycle (spec/SystemLifecycle.tla; signatures "lifecycle:..."): shutdown_after_backtest drains the
+    # market source before Shutdown, what a stop call returns, tasks left running, every stop call returns
+    from props import lifecycle
+    n_before = len(ctx.violations)
+    lifecycle.run(ctx, lifecycle.C20_TAGS, full=True)
+    if len(ctx.violations) > n_before:     # report it now: a tool error in a later stage must not hide this verdict
+        return ctx.finish()
+    # --- g3 end
     # spec -> impl: every small parameterisation, all run concurrently
     _, outcomes = ctx.tlc_gen("Gen_" + MODULE, "GenT_Backtest.cfg" if ctx.quick else "GenT_Backtest_thorough.cfg",
                               "outcomes.ndjson", timeout=1200, workers=1 if ctx.quick else 4)
@@ -527,6 +539,12 @@ def check(ctx):
 
 
 def replay(ctx, rp):
+    if rp.get("kind") == "clock":
+        from props import clock
+        return clock.replay(ctx, rp)
+    if rp.get("kind") == "lifecycle":       # g3
+        from props import lifecycle
+        return lifecycle.replay(ctx, rp, lifecycle.C20_TAGS)
     ctx.build("c20")
     scns = rp["scenarios"]
     expected = {(e[0], e[1]): e[2] for e in rp.get("expected", [])}
